@@ -11,7 +11,7 @@ ID = "C06"
 ENGINE = "words^<=n x positions x bracket forms, word pairs, piece algebra; oracle = independent word splitter on the raw command text"
 RULE = (
     "every word over the 22-character shell-word alphabet (a x 1 _ - . / = : , + % ^ ~ * < > | & ; @ e-acute) up to the "
-    "length bound in first / middle / last position of the four bracket forms with spacing variants; every ordered pair "
+    "length bound in first / middle / last position of the four bracket forms with spacing variants, also with the next word on a new line in the column where the previous one ended; every ordered pair "
     "of short words; every sequence of pieces from {word, quoted strings, $NAME, ${e}, @(e), @$(c), nested $( ) $[ ] !( ) "
     "![ ], search path, multi-line string, multi-line nested form} joined with or without a blank; a dictionary of "
     "realistic words that contain a reserved word as sub-token. Oracle: an independent scanner splits the raw text at "
@@ -80,6 +80,11 @@ def cases(unit: tuple) -> Iterator[dict]:
                 yield _case(op, w + " b")
                 yield _case(op, "b " + w)
                 yield _case(op, "b " + w + " c")
+            # the next word on a new line, starting exactly in the column where this one ended / elsewhere
+            for op in OPENERS[:2]:
+                yield _case(op, w + "\n" + " " * (len(op) + len(w)) + "b")
+                yield _case(op, "c " + w + "\n" + " " * (len(op) + 2 + len(w)) + "b\n" + " " * (len(op) + 2 + len(w) + 1) + "d")
+                yield _case(op, w + "\n  b")
             yield _case("$(", " " + w + " ")
             yield _case("$(", "b  " + w + "\t-c")
             yield _case("![", w + "  " + w)
